@@ -195,6 +195,9 @@ task_cb(tp_task_p tptask, int error, io_buf_p b, uint32_t eof, size_t transfered
 		n_eof_cb ++;
 		if (peer_open)
 			cfail("spurious-eof", "eof flags %#x but the peer has not closed", eof);
+		/* "delivers exactly the bytes that arrived ... end of stream is reported": what arrived before the close comes first */
+		if (!C.send && 0 == error && (int)buf.offset - C.off < ((arrived < C.ts) ? arrived : C.ts))
+			cfail("eof-before-data", "end of stream reported (flags %#x) while only %d of the %d bytes that arrived (window %d) were delivered", eof, (int)buf.offset - C.off, arrived, C.ts);
 	}
 	/* policy */
 	if (0 != eof || (0 != error && ETIMEDOUT != error) || 0 == buf.transfer_size) { /* finished: stop as the API documents */
@@ -475,7 +478,8 @@ gen_hist(int left, int used_close, int used_fire, int used_enable) {
 	if (C.nh >= MAXH - 1)
 		return;
 	if (0 == left || used_close) {
-		for (C.pre = 0; C.pre <= ((C.nh > 0) ? 1 : 0); C.pre ++)
+		/* pre = 2: the data AND the peer's close / reset are both there before the task is started - one event carries both */
+		for (C.pre = 0; C.pre <= ((C.nh > 1 && H_ARRIVE == C.h[0].op && (H_CLOSE == C.h[1].op || H_RESET == C.h[1].op)) ? 2 : (C.nh > 0) ? 1 : 0); C.pre ++)
 			emit_case();
 		C.pre = 0;
 		if (0 == left && used_close) return;
